@@ -94,7 +94,7 @@ class Prof:
         self.max_ops = 8
         self.max_shared = 3
         self.w = {'timeout': 6, 'wait': 2, 'succeed': 2, 'fail': 0, 'spawn': 1, 'join': 1,
-                  'interrupt': 0, 'cond': 0, 'ret': 1, 'raise': 0, 'negtimeout': 0, 'addcb': 0, 'fire': 0, 'subwait': 0}
+                  'interrupt': 0, 'cond': 0, 'ret': 1, 'raise': 0, 'negtimeout': 0, 'addcb': 0, 'fire': 0, 'subwait': 0, 'newenv': 0}
         self.handlers = ['cont', 'cont', 'rewait', 'ret', 'other']
         self.pool = 'GRID'
         self.top_timeouts = 2
@@ -211,6 +211,10 @@ def gen_ops(rng, prof, ctx, pid, depth):
             op = {'op': 'request', 'h': h} if rng.random() < 0.65 else {'op': 'release'}
         elif k == 'negtimeout':
             op = {'op': 'negtimeout', 'd': -rng.choice([1, 0.5, 2.0 ** -52, 1e-9, 3])}
+        elif k == 'newenv':
+            # a what-if simulation inside the simulation: a second Environment is created (and run) while this one
+            # has occurrences pending
+            op = {'op': 'newenv', 'n': rng.choice([0, 1, 3])}
         elif k == 'fire':
             op = {'op': 'fire', 'd': rng.choice(pool), 'v': ctx['val'](), 'cb': 'f%d' % ctx['val']()}
         elif k == 'addcb' and len(ctx['shared']) >= 2 and rng.random() < 0.3:
@@ -602,6 +606,14 @@ class World:
                     self.requests.append((pid, '%s.%d' % (pid, i), ev))
                 elif k == 'release':
                     self.give_back(pid, mine)
+                    continue
+                elif k == 'newenv':
+                    from onl.sim import Environment as _Env
+                    e2 = _Env(env.now)
+                    for j in range(int(op.get('n', 0))):
+                        e2.timeout(j)
+                    e2.run()
+                    self.rec('O', pid, i, 'newenv', op.get('n', 0))
                     continue
                 elif k == 'negtimeout':
                     n0 = len(env.log)
